@@ -33,6 +33,7 @@ type loP struct {
 	Decl      string
 	Lex       string // purely lexical serialisation variant (lexVals)
 	Wire      string // legal wire-level variant: "" | b64-76 | b64-64crlf | ctype-charset (POST) | flate-stored | flate-flushed | flate-chunks (Redirect)
+	HTTP      string // HTTP-level shape (world.HTTPShapes)
 	Lookup    string // GetEntityByID fault: "" | error | error-ctx-deadline | error-ctx-canceled
 }
 
@@ -259,6 +260,7 @@ func loBuild(p loP) (*world.World, *http.Request, *loTruth) {
 	default:
 		panic("loBuild: transport " + p.Transport)
 	}
+	req = world.Shape(req, p.HTTP)
 	return w, req, t
 }
 
@@ -298,6 +300,8 @@ func (p *loP) set(name, val string) {
 		p.Lex = val
 	case "Wire":
 		p.Wire = val
+	case "HTTP":
+		p.HTTP = val
 	case "Lookup":
 		p.Lookup = val
 	default:
